@@ -318,7 +318,9 @@ var Features = []Feature{
 		t := d.Table("t")
 		t.Idx = append(t.Idx, Idx{Name: "t_b", Unique: true, Parts: []Part{{Col: "b"}}, Inline: true})
 	}},
-	{Name: "check_named", Apply: func(d *DB) { t := d.Table("t"); t.Checks = append(t.Checks, Check{Name: "ck_a", Expr: "a > 0"}) }},
+	{Name: "check_named", Group: "ck_a", Apply: func(d *DB) { t := d.Table("t"); t.Checks = append(t.Checks, Check{Name: "ck_a", Expr: "a > 0"}) }},
+	// the same constraint name with another expression: between the two states only the expression changes.
+	{Name: "check_named_other_expr", Group: "ck_a", Apply: func(d *DB) { t := d.Table("t"); t.Checks = append(t.Checks, Check{Name: "ck_a", Expr: "a > -10"}) }},
 	{Name: "check_unnamed", Apply: func(d *DB) { t := d.Table("t"); t.Checks = append(t.Checks, Check{Expr: "id < 1000"}) }},
 	// an expression whose first and last bytes are parentheses that do not match each other.
 	{Name: "check_two_groups", Apply: func(d *DB) {
